@@ -22,7 +22,9 @@ EvChecks(ev, t) ==
           IF ev.res = "ok"
           THEN SwapChecks(st, fees, ev.args.i, ev.args.j, ev.args.k, ev.args.offer, ev.args.curve, ev.args.out, t)
                \o SimChecks(ev.args.sim, ev.args.out) \o HarnessAmp(ev) \o SwapLedgerChecks(st, ev.args.j, ev.args.out, t)
+               \o SpreadChecks(ev.args.offer, ev.args.out, ev.args.ms, ev.args.bp)
           ELSE Untouched(st, t)
+               \o (IF ev.args.wrong_path THEN <<>> ELSE SpreadInsideChecks(ev.args.offer, ev.args.sim, ev.args.ms, ev.args.bp))
      [] ev.ev = "provide" ->
           IF ev.res = "ok" THEN ProvideChecks(st, ev.args.d, ev.args.curve, ev.args.minted, ev.args.slip # "none", ev.args.slip, t) \o HarnessAmp(ev)
           ELSE Untouched(st, t)
